@@ -30,6 +30,30 @@ func init() {
 	mlog.SetLevel(mlog.Silent)
 }
 
+// ---------------------------------------------------------------- listeners
+
+// LoopAddr is a loopback address private to this process. Harness listeners
+// bind to it instead of 127.0.0.1: client sockets get their ephemeral ports on
+// 127.0.0.1, and every such port (also in TIME_WAIT) would otherwise be
+// unavailable to bind(port 0), which long campaigns run into.
+func LoopAddr() string {
+	pid := os.Getpid()
+	return fmt.Sprintf("127.%d.%d.%d", 1+(pid>>14)%250, 1+(pid>>7)%128, 1+pid%127)
+}
+
+// Listen opens a TCP listener on a free port of LoopAddr.
+func Listen() (net.Listener, error) {
+	var err error
+	for i := 0; i < 20; i++ {
+		var l net.Listener
+		if l, err = net.Listen("tcp", LoopAddr()+":0"); err == nil {
+			return l, nil
+		}
+		time.Sleep(50 * time.Millisecond)
+	}
+	return nil, err
+}
+
 // ---------------------------------------------------------------- origin
 
 // ReqLog is what the origin saw for one request.
@@ -85,7 +109,7 @@ type Origin struct {
 
 // NewOrigin starts an origin on a loopback port.
 func NewOrigin(handler func(r *ReqLog) Script) *Origin {
-	l, err := net.Listen("tcp", "127.0.0.1:0")
+	l, err := Listen()
 	if err != nil {
 		panic(err)
 	}
@@ -94,7 +118,7 @@ func NewOrigin(handler func(r *ReqLog) Script) *Origin {
 
 // NewTLSOrigin starts a TLS origin with the given server config.
 func NewTLSOrigin(conf *tls.Config, handler func(r *ReqLog) Script) *Origin {
-	l, err := net.Listen("tcp", "127.0.0.1:0")
+	l, err := Listen()
 	if err != nil {
 		panic(err)
 	}
@@ -299,7 +323,7 @@ type Proxy struct {
 
 // Start serves p on a fresh loopback listener (optionally wrapped).
 func Start(p *martian.Proxy, wrap func(net.Listener) net.Listener) *Proxy {
-	l, err := net.Listen("tcp", "127.0.0.1:0")
+	l, err := Listen()
 	if err != nil {
 		panic(err)
 	}
